@@ -1099,6 +1099,7 @@ class FuncAnalysis:
             self._guards.pop()
 
     def _s_For(self, s):
+        s = _continue_free(s)
         if self._unrollable(s):
             # a loop over a literal list of constants is the copy-pasted statements it abbreviates
             for elt in s.iter.elts:
@@ -1591,8 +1592,19 @@ class FuncAnalysis:
         saved = {}
         temps = []
         a = n.args
-        for i, arg in enumerate(list(a.posonlyargs) + list(a.args) + list(a.kwonlyargs)):
+        # `lambda x, k=k: ...` (a default that binds the current value of an enclosing variable, the early-binding
+        # idiom): the parameter is that value - callers of such a lambda pass the leading arguments only
+        pos = list(a.posonlyargs) + list(a.args)
+        early = {}
+        for arg, d in list(zip(pos[len(pos) - len(a.defaults):], a.defaults)) + \
+                [(x, d) for x, d in zip(a.kwonlyargs, a.kw_defaults) if d is not None]:
+            if isinstance(d, (ast.Name, ast.Constant)):
+                early[arg.arg] = self.ev(d)
+        for i, arg in enumerate(pos + list(a.kwonlyargs)):
             saved[arg.arg] = self.env.get(arg.arg, None)
+            if arg.arg in early:
+                self.env[arg.arg] = early[arg.arg]
+                continue
             self._n_unk += 1
             tv = ('bv', f't{self._n_unk}', 0)
             self.env[arg.arg] = tv
@@ -1736,7 +1748,10 @@ class FuncAnalysis:
             return False, None
         fi = repo.funcs[q]
         a = fi.node.args
-        if fi.parent is not None or fi.node.decorator_list or a.vararg or a.kwarg \
+        static = bool(fi.node.decorator_list) and all(isinstance(d, ast.Name) and d.id == 'staticmethod' for d in fi.node.decorator_list)
+        if static and skip:
+            skip = 0            # self.helper(...) of a @staticmethod: no instance parameter
+        if fi.parent is not None or (fi.node.decorator_list and not static) or a.vararg or a.kwarg \
                 or any(isinstance(x, (ast.Await, ast.ClassDef, ast.Global, ast.Nonlocal)) for x in ast.walk(fi.node) if x is not fi.node) \
                 or any(isinstance(x, (ast.Yield, ast.YieldFrom)) for x in _walk_no_defs(fi.node.body)):
             return False, None
@@ -1794,8 +1809,17 @@ class FuncAnalysis:
             (self.env, self.module, self._locals, self._mutated, self._globals_decl, self._nonlocal_decl, self.closure,
              self._rest, self._pending_path_guards) = saved
         # value: the returns in order, each under its own conditions (relative to the call)
+        # a return is reached only when the earlier ones were not taken: a conjunct that merely repeats the negation
+        # of an earlier return's (single) condition adds nothing
+        simp = []
+        for value, conds in rets:
+            flat = []
+            for c in conds:
+                flat.extend(c[1] if c[0] == 'and' else [c])
+            kept = [g for g in flat if not any(len(cj) == 1 and T.not_(cj[0]) == g for _, cj in simp)]
+            simp.append((value, kept))
         acc = T.NONE
-        for value, conds in reversed(rets):
+        for value, conds in reversed(simp):
             if not conds:
                 acc = value
             else:
@@ -2113,6 +2137,49 @@ def _assigned_names(fnode):
 
 # ---------------------------------------------------------------------------
 # analysis cache
+
+def _continue_free(s):
+    """A loop over a literal whose body skips an iteration with a guard clause directly in the body -
+    ``if c: continue`` followed by the rest - is the same loop with the rest under ``if not c:``; in that
+    form a literal loop can be unrolled.  Other loops are returned unchanged."""
+    if not isinstance(s.iter, (ast.List, ast.Tuple, ast.Name)) or s.orelse:
+        return s
+
+    def has_continue(stmts):
+        stack = list(stmts)
+        while stack:
+            n = stack.pop()
+            if isinstance(n, ast.Continue):
+                return True
+            if isinstance(n, (ast.For, ast.AsyncFor, ast.While, ast.FunctionDef, ast.AsyncFunctionDef, ast.ClassDef, ast.Lambda)):
+                continue
+            stack.extend(ast.iter_child_nodes(n))
+        return False
+    if not has_continue(s.body):
+        return s
+
+    def rewrite(stmts):
+        out = []
+        for i, st in enumerate(stmts):
+            if isinstance(st, ast.If) and not st.orelse and len(st.body) == 1 and isinstance(st.body[0], ast.Continue):
+                rest = rewrite(stmts[i + 1:])
+                if rest:
+                    neg = ast.UnaryOp(op=ast.Not(), operand=st.test)
+                    new = ast.If(test=neg, body=rest, orelse=[])
+                    ast.copy_location(neg, st.test)
+                    ast.copy_location(new, st)
+                    out.append(new)
+                return out
+            out.append(st)
+        return out
+    body = rewrite(list(s.body))
+    if not body or has_continue(body):
+        return s
+    new = ast.For(target=s.target, iter=s.iter, body=body, orelse=[], type_comment=None)
+    ast.copy_location(new, s)
+    ast.fix_missing_locations(new)
+    return new
+
 
 class Analyses:
     """Lazily evaluates functions of a repo; nested functions get the
